@@ -4,6 +4,7 @@ import (
 	"math"
 	"math/big"
 	"reflect"
+	"sort"
 
 	"verifharness/spec"
 )
@@ -330,19 +331,26 @@ func (b *Builder) GenGo(t reflect.Type, r *Rnd, m Mode, depth int) *GV {
 		}
 		return g
 	case reflect.Struct:
+		// fields are visited in name order and every field gets its own generator derived from
+		// its name, so that the value does not depend on the declaration order (C15) nor on the
+		// presence of other fields (C11)
 		g := &GV{K: "st"}
-		for _, sf := range structFields(t) {
+		fs := structFields(t)
+		sort.Slice(fs, func(i, j int) bool { return fs[i].Name < fs[j].Name })
+		base := r.U64()
+		for _, sf := range fs {
+			fr := NewRnd(base ^ hashName(sf.Name))
 			g.Keys = append(g.Keys, sf.Name)
 			fm := m
 			if m == MRand {
-				switch r.N(6) {
+				switch fr.N(6) {
 				case 0:
 					fm = MZero
 				case 1:
 					fm = MEdge
 				}
 			}
-			g.Elems = append(g.Elems, b.GenGo(sf.Type, r, fm, depth))
+			g.Elems = append(g.Elems, b.GenGo(sf.Type, fr, fm, depth))
 		}
 		return g
 	case reflect.Interface:
@@ -366,4 +374,13 @@ func (b *Builder) ZeroGo(t reflect.Type) *GV { return b.GenGo(t, NewRnd(0), MZer
 func f32repr(bits uint64) bool {
 	f := math.Float64frombits(bits)
 	return float64(float32(f)) == f
+}
+
+func hashName(s string) uint64 {
+	h := uint64(1469598103934665603)
+	for i := 0; i < len(s); i++ {
+		h ^= uint64(s[i])
+		h *= 1099511628211
+	}
+	return h
 }
